@@ -68,7 +68,44 @@ def run(tier):
                     V.machinery_error("CallBinding.tla disagrees with CPython: " + json.dumps(r["spec_vs_cpython"][:2]))
                 for f in r["tracer"]:
                     V.violation(f"{f['clause']}:{f['why']}|{f['desc']} -> tracer {json.dumps(f['tracer'])[:120]}", f)
-    cov = {"states": len(cases), "transitions": len(cases), "traces_validated_against_impl": tr_checked, "evaluations": cp_checked + tr_checked,
+        # ---- operator dispatch (OpDispatch.tla): every case x every operator of its kind
+        od_checked = 0
+        md = os.path.join(scratch, "od")
+        os.makedirs(md, exist_ok=True)
+        cmd = ["java", "-XX:+UseParallelGC", "-Xmx2g", f"-DTLA-Library={vlib.SPEC}:{os.path.join(vlib.SPEC, 'mc')}", "-cp", vlib.TLA_CP,
+               "tlc2.TLC", "-workers", "1", "-metadir", os.path.join(md, "meta"), "-noGenerateSpecTE",
+               "-config", os.path.join(vlib.SPEC, "mc", "MC_OpDispatch.cfg"), os.path.join(vlib.SPEC, "mc", "MC_OpDispatch.tla")]
+        p = subprocess.run(cmd, capture_output=True, text=True, timeout=600, cwd=md)
+        odcases = [json.loads(json.loads('"' + m.group(1) + '"')) for m in re.finditer(r'<<"CASE", "((?:[^"\\]|\\.)*)">>', p.stdout + p.stderr)]
+        if not odcases:
+            V.machinery_error("OpDispatch spec run failed: " + (p.stdout + p.stderr)[-400:])
+
+        def od_one(args):
+            j, cs = args
+            wd = os.path.join(md, f"w{j}")
+            os.makedirs(wd, exist_ok=True)
+            json.dump(cs, open(os.path.join(wd, "cases.json"), "w"))
+            env = dict(os.environ, PYTHONPATH=vlib.REPO, PYTHONHASHSEED="0")
+            q = subprocess.run([vlib.VENV_PY, os.path.join(vlib.VERIF, "harness", "pyobs_c10_ops.py"), os.path.join(wd, "cases.json"), wd,
+                                os.path.join(wd, "out.json")], env=env, capture_output=True, text=True, cwd=wd)
+            return {"error": q.stderr[-1200:]} if q.returncode != 0 else json.load(open(os.path.join(wd, "out.json")))
+
+        rejected_valid = 0
+        with cf.ThreadPoolExecutor(vlib.NCPU) as ex:
+            for r in ex.map(od_one, list(enumerate(vlib.shard(odcases, 8)))):
+                if "error" in r:
+                    V.machinery_error("pyobs_c10_ops: " + r["error"])
+                    continue
+                od_checked += r["checked"]
+                rejected_valid += r.get("rejected_valid", 0)
+                if r["n_spec_vs_cpython"]:
+                    V.machinery_error("OpDispatch.tla disagrees with CPython: " + json.dumps(r["spec_vs_cpython"][:2]))
+                for f in r["tracer"]:
+                    c = f["case"]
+                    cls = "reflected-method-used-for-identical-types" if c["rel"] == "same" else \
+                        "subclass-priority-ignored" if c["rel"] == "sub" else "other"
+                    V.violation(f"operator-dispatch:{cls}|{f['desc']}: CPython {f['cpython']!r}, tracer {f['tracer']!r}", f)
+    cov = {"states": len(cases), "transitions": len(cases), "operator_dispatch_cases": od_checked, "valid_code_rejected_by_tracer": rejected_valid, "traces_validated_against_impl": tr_checked, "evaluations": cp_checked + tr_checked,
            "distinct_nontrivial": len(by), "cpython_validated_pairs": cp_checked,
            "samples": [{"sig": cases[i]["sig"], "call": cases[i]["call"], "res": cases[i]["res"]} for i in sample[:: max(1, len(sample) // 3)][:3]],
            "rule": "TLC enumerates every legal signature with <= 1 positional-only, <= 2 positional-or-keyword, <= 1 keyword-only parameter "
